@@ -24,7 +24,6 @@ import (
 	"go/constant"
 	"go/printer"
 	"go/token"
-	"sort"
 	"strings"
 
 	"golang.org/x/tools/go/packages"
@@ -357,18 +356,211 @@ func c13srcIfReturning(p *packages.Package, fd *ast.FuncDecl, errName string) []
 	return out
 }
 
-type c13srcEvent struct {
-	pos  token.Pos
-	name string
+// c13srcPassEndPath: the statements a decoder's Scan executes from the point where it has seen the end of the file to the
+// point where it reads again (or returns), in execution order.
+func c13srcPassEndPath(p *packages.Package, fd *ast.FuncDecl, dec string) []ast.Stmt {
+	var loop *ast.ForStmt
+	for _, s := range fd.Body.List {
+		if f, ok := s.(*ast.ForStmt); ok {
+			loop = f
+		}
+	}
+	if loop == nil {
+		return nil
+	}
+	findIf := func(list []ast.Stmt, cond string) *ast.IfStmt {
+		for _, s := range list {
+			if is, ok := s.(*ast.IfStmt); ok && c13srcText(p, is.Cond) == cond {
+				return is
+			}
+		}
+		return nil
+	}
+	switch dec {
+	case "raw":
+		if is := findIf(loop.Body.List, "err == io.EOF"); is != nil {
+			return is.Body.List
+		}
+	case "uri":
+		if outer := findIf(loop.Body.List, "!d.scanner.Scan()"); outer != nil {
+			if is := findIf(outer.Body.List, "d.scanner.Err() == nil"); is != nil {
+				return is.Body.List
+			}
+		}
+	case "uripost":
+		// the statements after the inner read loop
+		for i, s := range loop.Body.List {
+			if _, ok := s.(*ast.ForStmt); ok {
+				return loop.Body.List[i+1:]
+			}
+		}
+	case "jsonline":
+		// after the `if err != nil { … } else { … }` that follows Decode, then the top of the loop up to the declaration of the entity
+		for i, s := range loop.Body.List {
+			if is, ok := s.(*ast.IfStmt); ok && c13srcText(p, is.Cond) == "err != nil" && is.Else != nil {
+				path := append([]ast.Stmt(nil), loop.Body.List[i+1:]...)
+				for _, t := range loop.Body.List[:i] {
+					if _, isDecl := t.(*ast.DeclStmt); isDecl {
+						return path
+					}
+					path = append(path, t)
+				}
+			}
+		}
+	}
+	return nil
 }
 
-func c13srcSeq(evs []c13srcEvent) string {
-	sort.Slice(evs, func(i, j int) bool { return evs[i].pos < evs[j].pos })
-	parts := make([]string, len(evs))
-	for i, e := range evs {
-		parts[i] = fmt.Sprintf("%q", e.name)
+// passEnd: symbolic execution of a pass-end path. Statements that only reset the reader state (header, line counter,
+// scanner / reader / decoder over the sought file) and the I/O error checks (the fault cases of the harness cover them)
+// are passed over; anything else is refused.
+func (x *c13srcX) passEnd(stmts []ast.Stmt, sought bool, ind string) string {
+	soughtS := "false"
+	if sought {
+		soughtS = "true"
 	}
-	return "[" + strings.Join(parts, ", ") + "]"
+	if len(stmts) == 0 {
+		return ind + "(0, passNum, " + soughtS + ")"
+	}
+	s, rest := stmts[0], stmts[1:]
+	text := c13srcText(x.p, s)
+	switch y := s.(type) {
+	case *ast.BranchStmt:
+		if y.Tok == token.CONTINUE {
+			return ind + "(0, passNum, " + soughtS + ")"
+		}
+	case *ast.IncDecStmt:
+		if c13srcText(x.p, y.X) == "d.passNum" && y.Tok == token.INC {
+			return ind + "let passNum := passNum + 1\n" + x.passEnd(rest, sought, ind)
+		}
+	case *ast.IfStmt:
+		if y.Init == nil && y.Else == nil && len(y.Body.List) == 1 {
+			if rs, ok := y.Body.List[0].(*ast.ReturnStmt); ok && len(rs.Results) == 2 {
+				switch c13srcText(x.p, rs.Results[1]) {
+				case "ErrPassLimit":
+					return ind + "if " + x.cond(y.Cond) + " then (1, passNum, " + soughtS + ") else\n" + x.passEnd(rest, sought, ind)
+				case "ErrNoAmmo":
+					return ind + "if " + x.cond(y.Cond) + " then (2, passNum, " + soughtS + ") else\n" + x.passEnd(rest, sought, ind)
+				case "err":
+					if c13srcText(x.p, y.Cond) == "err != nil" {
+						return x.passEnd(rest, sought, ind)
+					}
+				}
+			}
+		}
+	case *ast.AssignStmt:
+		if len(y.Rhs) == 1 {
+			if c, ok := y.Rhs[0].(*ast.CallExpr); ok && c13srcText(x.p, c.Fun) == "d.file.Seek" {
+				if c13srcText(x.p, y.Rhs[0]) != "d.file.Seek(0, io.SeekStart)" {
+					return ind + x.fail(s, "seek %s", text)
+				}
+				return x.passEnd(rest, true, ind)
+			}
+		}
+		if len(y.Lhs) == 1 {
+			switch c13srcText(x.p, y.Lhs[0]) {
+			case "d.header", "d.Header", "d.line", "d.scanner", "d.decoder", "err":
+				return x.passEnd(rest, sought, ind)
+			}
+		}
+	case *ast.ExprStmt:
+		if text == "d.reader.Reset(d.file)" {
+			return x.passEnd(rest, sought, ind)
+		}
+	}
+	return ind + x.fail(s, "statement on the pass-end path: %s", text)
+}
+
+// mprEof: symbolic execution of the EOF block of MultiPassReader.Read
+func (x *c13srcX) mprEof(stmts []ast.Stmt, ind string) string {
+	if len(stmts) == 0 {
+		return ind + "(false, false, passBytes, passesCount)"
+	}
+	s, rest := stmts[0], stmts[1:]
+	text := c13srcText(x.p, s)
+	switch y := s.(type) {
+	case *ast.IncDecStmt:
+		if c13srcText(x.p, y.X) == "r.passesCount" && y.Tok == token.INC {
+			return ind + "let passesCount := passesCount + 1\n" + x.mprEof(rest, ind)
+		}
+	case *ast.AssignStmt:
+		if len(y.Lhs) == 1 && len(y.Rhs) == 1 {
+			switch c13srcText(x.p, y.Lhs[0]) {
+			case "fruitless":
+				return ind + "let fruitless : Bool := decide " + x.cond(y.Rhs[0]) + "\n" + x.mprEof(rest, ind)
+			case "r.passBytes":
+				if y.Tok == token.ASSIGN {
+					return ind + "let passBytes : Int := " + x.intE(y.Rhs[0]) + "\n" + x.mprEof(rest, ind)
+				}
+			}
+		}
+	case *ast.IfStmt:
+		if y.Init == nil && y.Else == nil && len(y.Body.List) == 1 {
+			if rs, ok := y.Body.List[0].(*ast.ReturnStmt); ok && len(rs.Results) == 0 {
+				return ind + "if " + x.cond(y.Cond) + " then (true, false, passBytes, passesCount) else\n" + x.mprEof(rest, ind)
+			}
+			if c13srcText(x.p, y.Body.List[0]) == "_, err = r.rs.Seek(0, io.SeekStart)" && len(rest) == 0 {
+				return ind + "(false, decide " + x.cond(y.Cond) + ", passBytes, passesCount)"
+			}
+		}
+	}
+	return ind + x.fail(s, "statement of the EOF block: %s", text)
+}
+
+// scanAmmos of the jsonline decoder: the whole function, executed symbolically
+func (x *c13srcX) scanAmmos(stmts []ast.Stmt, ind string) string {
+	if len(stmts) == 0 {
+		return ind + x.fail(nil, "scanAmmos: no return")
+	}
+	s, rest := stmts[0], stmts[1:]
+	text := c13srcText(x.p, s)
+	switch y := s.(type) {
+	case *ast.ReturnStmt:
+		if len(y.Results) == 2 && c13srcIsNil(y.Results[1]) && c13srcText(x.p, y.Results[0]) == "a" && x.env["a"] != "" {
+			return ind + ".ok (" + x.env["a"] + ", passNum, ammoNum)"
+		}
+	case *ast.IncDecStmt:
+		if y.Tok == token.INC {
+			switch c13srcText(x.p, y.X) {
+			case "d.passNum":
+				return ind + "let passNum := passNum + 1\n" + x.scanAmmos(rest, ind)
+			case "d.ammoNum":
+				return ind + "let ammoNum := ammoNum + 1\n" + x.scanAmmos(rest, ind)
+			}
+		}
+	case *ast.IfStmt:
+		if y.Init == nil && y.Else == nil && len(y.Body.List) == 1 {
+			if rs, ok := y.Body.List[0].(*ast.ReturnStmt); ok && len(rs.Results) == 2 && !c13srcIsNil(rs.Results[1]) {
+				cls := map[string]string{"ErrNoAmmo": "noammo", "ErrPassLimit": "passlimit"}[c13srcText(x.p, rs.Results[1])]
+				if cls == "" {
+					cls = "e"
+				}
+				return ind + "if " + x.cond(y.Cond) + " then .err \"" + cls + "\" else\n" + x.scanAmmos(rest, ind)
+			}
+			if id, ok := y.Body.List[0].(*ast.IncDecStmt); ok && id.Tok == token.INC && c13srcText(x.p, id.X) == "d.passNum" {
+				return ind + "let passNum := if " + x.cond(y.Cond) + " then passNum + 1 else passNum\n" + x.scanAmmos(rest, ind)
+			}
+		}
+	case *ast.AssignStmt:
+		if len(y.Lhs) == 1 && len(y.Rhs) == 1 && y.Tok == token.DEFINE {
+			lhs := c13srcText(x.p, y.Lhs[0])
+			rhs := c13srcText(x.p, y.Rhs[0])
+			if rhs == "len(d.ammos)" {
+				x.env[lhs] = "length"
+				return x.scanAmmos(rest, ind)
+			}
+			if be, ok := y.Rhs[0].(*ast.BinaryExpr); ok && be.Op == token.REM {
+				v := mangle(lhs)
+				x.env[lhs] = v
+				return ind + "(Pandora.Model.C13.tmodC " + x.intE(be.X) + " " + x.intE(be.Y) + ").bind fun " + v + " =>\n" + x.scanAmmos(rest, ind)
+			}
+			if ie, ok := y.Rhs[0].(*ast.IndexExpr); ok && c13srcText(x.p, ie.X) == "d.ammos" {
+				x.env[lhs] = x.intE(ie.Index)
+				return ind + "(Pandora.Model.C13.boundC " + x.intE(ie.Index) + " length).bind fun _ =>\n" + x.scanAmmos(rest, ind)
+			}
+		}
+	}
+	return ind + x.fail(s, "statement of scanAmmos: %s", text)
 }
 
 func c13srcExtra(t *tr) string {
@@ -453,32 +645,30 @@ func c13srcExtra(t *tr) string {
 				x.fail(nil, "%sDecoder.Scan not found", dec)
 				continue
 			}
-			pl := c13srcIfReturning(p, fd, "ErrPassLimit")
-			na := c13srcIfReturning(p, fd, "ErrNoAmmo")
-			if len(pl) != 1 || len(na) != 1 {
-				x.fail(fd, "%sDecoder.Scan: %d tests return ErrPassLimit, %d ErrNoAmmo", dec, len(pl), len(na))
+			// the path from the end of the file to the next read, executed symbolically
+			path := c13srcPassEndPath(p, fd, dec)
+			if path == nil {
+				x.fail(fd, "%sDecoder.Scan: the statements between the end of the file and the next read were not found", dec)
 				continue
 			}
-			fmt.Fprintf(&b, "/-- regenerated from `decoders/%s.go` `Scan`: the tests that return ErrPassLimit / ErrNoAmmo -/\n", dec)
-			fmt.Fprintf(&b, "def %sPassLimit (passes passNum : Int) : Prop := %s\n", dec, x.cond(pl[0].Cond))
-			fmt.Fprintf(&b, "instance (passes passNum : Int) : Decidable (%sPassLimit passes passNum) := by unfold %sPassLimit; exact inferInstance\n", dec, dec)
-			fmt.Fprintf(&b, "def %sNoAmmo (ammoNum : Int) : Prop := %s\n", dec, x.cond(na[0].Cond))
-			fmt.Fprintf(&b, "instance (ammoNum : Int) : Decidable (%sNoAmmo ammoNum) := by unfold %sNoAmmo; exact inferInstance\n", dec, dec)
-			evs := []c13srcEvent{{pl[0].Pos(), "ErrPassLimit"}, {na[0].Pos(), "ErrNoAmmo"}}
-			ast.Inspect(fd.Body, func(n ast.Node) bool {
-				switch y := n.(type) {
-				case *ast.IncDecStmt:
-					if c13srcText(p, y.X) == "d.passNum" && y.Tok == token.INC {
-						evs = append(evs, c13srcEvent{y.Pos(), "passNum++"})
-					}
-				case *ast.CallExpr:
-					if c13srcText(p, y.Fun) == "d.file.Seek" {
-						evs = append(evs, c13srcEvent{y.Pos(), "Seek"})
-					}
-				}
-				return true
-			})
-			fmt.Fprintf(&b, "/-- these tests, `d.passNum++` and `d.file.Seek` in source order -/\ndef %sPassEndSeq : List String := %s\n\n", dec, c13srcSeq(evs))
+			fmt.Fprintf(&b, "/-- regenerated from `decoders/%s.go` `Scan`: the statements executed between the end of the file and the next read,\nin source order: (0 = read again | 1 = ErrPassLimit | 2 = ErrNoAmmo, `d.passNum` afterwards, the file was sought to its start) -/\n", dec)
+			fmt.Fprintf(&b, "def %sPassEnd (passes passNum ammoNum : Int) : Int × Int × Bool :=\n%s\n\n", dec, x.passEnd(path, false, "  "))
+		}
+	}
+
+	// ---------------------------------------------------------------- jsonline scanAmmos
+	{
+		p := c13srcLoad(t, "github.com/yandex/pandora/components/providers/http/decoders")
+		x := &c13srcX{t: t, p: p, env: map[string]string{
+			"d.config.Passes": "passes", "d.passNum": "passNum", "d.ammoNum": "ammoNum"}}
+		fd := c13srcFunc(p, "jsonlineDecoder", "scanAmmos")
+		if fd == nil {
+			x.fail(nil, "jsonlineDecoder.scanAmmos not found")
+		} else {
+			b.WriteString("/-- regenerated from `decoders/jsonline.go` `scanAmmos`, the whole function (`length` = `len(d.ammos)`): an error, or\n(the index of the element handed out, `d.passNum` and `d.ammoNum` afterwards); `%` and the index expression are partial -/\n")
+			b.WriteString("def scanAmmos (length passes passNum ammoNum : Int) : Res (Int × Int × Int) :=\n")
+			b.WriteString(x.scanAmmos(fd.Body.List, "  "))
+			b.WriteString("\n\n")
 		}
 	}
 
@@ -501,58 +691,10 @@ func c13srcExtra(t *tr) string {
 			if eofIf == nil {
 				x.fail(fd, "MultiPassReader.Read: no `if err == io.EOF` block")
 			} else {
-				var evs []c13srcEvent
-				var fruitless, seekCond, retCond string
-				for _, s := range eofIf.Body.List {
-					switch y := s.(type) {
-					case *ast.IncDecStmt:
-						if c13srcText(p, y.X) == "r.passesCount" && y.Tok == token.INC {
-							evs = append(evs, c13srcEvent{y.Pos(), "passesCount++"})
-						}
-					case *ast.AssignStmt:
-						switch c13srcText(p, y.Lhs[0]) {
-						case "fruitless":
-							fruitless = x.cond(y.Rhs[0])
-							evs = append(evs, c13srcEvent{y.Pos(), "fruitless"})
-						case "r.passBytes":
-							if c13srcText(p, y.Rhs[0]) == "0" && y.Tok == token.ASSIGN {
-								evs = append(evs, c13srcEvent{y.Pos(), "passBytes=0"})
-							} else {
-								x.fail(y, "assignment to r.passBytes in the EOF block")
-							}
-						default:
-							x.fail(y, "assignment in the EOF block")
-						}
-					case *ast.IfStmt:
-						if len(y.Body.List) == 1 {
-							if _, ok := y.Body.List[0].(*ast.ReturnStmt); ok {
-								retCond = x.cond(y.Cond)
-								evs = append(evs, c13srcEvent{y.Pos(), "return"})
-								continue
-							}
-							if strings.Contains(c13srcText(p, y.Body.List[0]), "r.rs.Seek(0, io.SeekStart)") {
-								seekCond = x.cond(y.Cond)
-								evs = append(evs, c13srcEvent{y.Pos(), "Seek"})
-								continue
-							}
-						}
-						x.fail(y, "if statement in the EOF block")
-					default:
-						x.fail(s, "statement in the EOF block")
-					}
-				}
-				if fruitless == "" || seekCond == "" || retCond == "" {
-					x.fail(eofIf, "EOF block lacks the fruitless assignment, the early return or the seek")
-				} else {
-					b.WriteString("/-- regenerated from `lib/ioutil2/reader.go` `MultiPassReader.Read`, the block `if err == io.EOF`: the value of `fruitless`\n(`hasProgress` = a progress function is set, `progress` = what it answers) -/\n")
-					b.WriteString("def mprFruitless (passBytes : Int) (hasProgress progress : Bool) : Prop := " + fruitless + "\n")
-					b.WriteString("instance (passBytes : Int) (hasProgress progress : Bool) : Decidable (mprFruitless passBytes hasProgress progress) := by unfold mprFruitless; exact inferInstance\n")
-					b.WriteString("/-- the test in front of the early `return` -/\ndef mprReturns (fruitless : Bool) : Prop := " + retCond + "\n")
-					b.WriteString("instance (fruitless : Bool) : Decidable (mprReturns fruitless) := by unfold mprReturns; exact inferInstance\n")
-					b.WriteString("/-- the test in front of `r.rs.Seek(0, io.SeekStart)` -/\ndef mprSeeks (passesLimit passesCount : Int) : Prop := " + seekCond + "\n")
-					b.WriteString("instance (passesLimit passesCount : Int) : Decidable (mprSeeks passesLimit passesCount) := by unfold mprSeeks; exact inferInstance\n")
-					b.WriteString("/-- the statements of that block in source order -/\ndef mprEofSeq : List String := " + c13srcSeq(evs) + "\n\n")
-				}
+				b.WriteString("/-- regenerated from `lib/ioutil2/reader.go` `MultiPassReader.Read`, the block `if err == io.EOF`, executed in source order\n(`hasProgress` = a progress function is set, `progress` = what it answers):\n(the early `return` is taken, the source is sought to its start, `r.passBytes` and `r.passesCount` afterwards) -/\n")
+				b.WriteString("def mprEof (passBytes passesCount passesLimit : Int) (hasProgress progress : Bool) : Bool × Bool × Int × Int :=\n")
+				b.WriteString(x.mprEof(eofIf.Body.List, "  "))
+				b.WriteString("\n\n")
 			}
 		}
 		pp := c13srcLoad(t, "github.com/yandex/pandora/core/provider")
